@@ -9,7 +9,7 @@ def params_of(p):
     """[(name, type, log expression)]"""
     out = []
     for j, k in enumerate(p["params"], start=1):
-        n = f"a{j}"
+        n = f"a{9 - j}"         # names DESCEND with the position: declaration order is not alphabetical order
         log = {"i32": f'format!("{{:?}}", {n})', "string": f"{n}.clone()", "str": f"{n}.to_string()"}[k]
         out.append((n, PARAM_TY[k], log))
     return out
@@ -267,6 +267,8 @@ def render_c07(case, c, seed):
         others.append(f"#[::entrait::entrait(pub Other{k})]\nfn other{k}<D>(deps: &D, x: i32) -> String {body}\n")
     attr = "TrImpl, delegate_by = DelegateTr" if static else "TrImpl, delegate_by = ref"
     methods = [f"    {fnkw} m{i}(&self{sig_params}) -> String;" for i in range(1, p["nmeth"] + 1)]
+    if p.get("mixed"):
+        methods.append("    fn level(&self) -> u8;")
     trait_text = f"#[::entrait::entrait({attr})]\n{at}pub trait Tr {{\n" + "\n".join(methods) + "\n}\n"
     if leaf:
         gen, deps_ty = "", "&(impl Leaf<u8> + Leaf<u16>)"
@@ -294,6 +296,8 @@ def render_c07(case, c, seed):
                            f'        ::vt::emit("ret", &format!("\\"m\\":\\"other{k}\\",\\"val\\":{{}}", ::vt::js(&__n{k})));\n        ')
             body = logging_body(f'String::from("target:{x}::m{i}")', "::vt::addr(deps)", [l for _, _, l in ps], is_async, extra=nested)
             ms.append(f"    pub {fnkw} m{i}{gen}(deps: {deps_ty}{sig_params}) -> String {body}")
+        if p.get("mixed"):
+            ms.append("    pub fn level<D>(_deps: &D) -> u8 { 7 }")
         ea = "#[::entrait::entrait]" if static else "#[::entrait::entrait(ref)]"
         decl = "" if generic_target else f"pub struct {x};\n"
         return f"{decl}{ea}\n{at}impl TrImpl for {tyname[x]} {{\n" + "\n".join(ms) + "\n}\n"
